@@ -21,6 +21,7 @@ import QuinnModel.Drv.Sbuf
 import QuinnModel.Drv.Asm
 import QuinnModel.Drv.CidEcho
 import QuinnModel.Drv.FrameRules
+import QuinnModel.Drv.Rcv
 /-
 Native model driver: one request per line on stdin, one canonical response line on stdout.
 `case <id>` resets every component state (and is echoed).
@@ -30,6 +31,7 @@ open QM
 structure St where
   dedup : Dedup.Dedup := Dedup.init
   streams : Streams.State := Streams.State.initial
+  rcv : E2E.St := E2E.St.init 0 0
   dgram : Drv.DgSt := {}
   mtud : Mtud.State := Drv.mtudInit
   cindex : Drv.CState := {}
@@ -82,6 +84,7 @@ def step (s : St) (line : String) : St × String :=
   | "dgram" :: r => let (d, o) := Drv.dgram s.dgram r; ({ s with dgram := d }, o)
   | "mtud" :: r => let (d, o) := Drv.mtud s.mtud r; ({ s with mtud := d }, o)
   | "streams" :: r => let (d, o) := Drv.streams s.streams r; ({ s with streams := d }, o)
+  | "rcv" :: r => let (d, o) := Drv.rcv s.rcv r; ({ s with rcv := d }, o)
   | _ => (s, "bad-op")
 
 partial def loop (h : IO.FS.Stream) (out : IO.FS.Stream) (s : St) : IO Unit := do
